@@ -47,7 +47,7 @@ def proj_of(place):
 def path_str(p, fn=None):
     root, proj = p
     if root[0] == "ext":
-        s = fn.arg_name(root[1]) if fn is not None else "arg%d" % root[1]
+        s = fn.arg_name(root[1]) if (fn is not None and isinstance(root[1], int)) else "arg%s" % (root[1],)
     elif root[0] == "loc":
         s = (fn.names.get(root[1]) if fn is not None else None) or "_%d" % root[1]
     else:
